@@ -186,23 +186,26 @@ def pSetup (s : String) : Option Setup :=
   | 'l' :: k => (pErrKind (String.ofList k)).map .acceptFailed
   | _ => none
 
-/-- run the ops of a blocking-client history through `SyncContext` -/
-def syncOps : List String → SyncContext → Transport → List String → Option (List String)
-  | [], _, _, acc => some acc.reverse
-  | op :: rest, s, t, acc =>
-    match (op.splitOn " ").filter (· ≠ "") with
-    | ["timeout", v] => syncOps rest (s.setTimeout (v ≠ "-")) t ("ok" :: acc)
-    | _ =>
+/-- one line of a blocking-client history as an operation of the session model -/
+def pSyncOp (op : String) : Option SyncOp :=
+  match (op.splitOn " ").filter (· ≠ "") with
+  | ["timeout", v] => some (.setTimeout (v ≠ "-"))
+  | _ =>
     match pCliOp op with
-    | none => none
-    | some (.call req ext _, none) =>
-      let (r, s', t', effs) := s.call req (t.extend ext) none
-      syncOps rest s' t' ((callResult r ++ " " ++ effectsTok effs) :: acc)
-    | some (.call _ ext _, some top) =>
-      let (r, s', t', effs) := s.typed top (t.extend ext) none
-      syncOps rest s' t' ((typedResult r ++ " " ++ effectsTok effs) :: acc)
-    | some (.setSlave id, _) => syncOps rest (s.setSlave id) t ("ok" :: acc)
-    | some (.disconnect _, _) => none
+    | some (.call req ext _, none) => some (.call req ext none)
+    | some (.call _ ext _, some top) => some (.typed top ext none)
+    | some (.setSlave id, _) => some (.setSlave id)
+    | _ => none
+
+def syncResult : SyncOpResult → String
+  | .call r effs => callResult r ++ " " ++ effectsTok effs
+  | .typed r effs => typedResult r ++ " " ++ effectsTok effs
+  | .unit => "ok"
+
+/-- run a blocking-client history through `runSync`, the session model the C17 theorems are
+    stated over -/
+def syncOps (ops : List String) (s : SyncContext) (t : Transport) : Option (List String) :=
+  (ops.mapM pSyncOp).map fun sops => (runSync s t sops).1.map syncResult
 
 /-- the accept loop over a list of connection setups: `a` accepted, the client performs one good
     exchange and closes; `b` accepted, the client sends a malformed frame; `r` no service;
@@ -310,7 +313,7 @@ def runOp (line : String) : Option String :=
         let k ← pKind kind
         let sl ← if slave = "-" then some none else (pU8 slave).map some
         let ctx := SyncContext.connect k sl (field "to" opts ≠ "")
-        let outs ← syncOps ops ctx {} []
+        let outs ← syncOps ops ctx {}
         pure (String.intercalate " | " outs)
       | ["conc", kind] => do
         let k ← pKind kind
